@@ -453,7 +453,9 @@ func (a *c17SsApp) ApplySnapshotChunkSync(rq abci.RequestApplySnapshotChunk) (*a
 	return &abci.ResponseApplySnapshotChunk{Result: abci.ResponseApplySnapshotChunk_RETRY,
 		RefetchChunks: []uint32{rq.Index}, RejectSenders: []string{rq.Sender}}, nil
 }
-func (a *c17SsApp) EchoSync(s string) (*abci.ResponseEcho, error) { return &abci.ResponseEcho{Message: s}, nil }
+func (a *c17SsApp) EchoSync(s string) (*abci.ResponseEcho, error) {
+	return &abci.ResponseEcho{Message: s}, nil
+}
 func (a *c17SsApp) InfoSync(abci.RequestInfo) (*abci.ResponseInfo, error) {
 	a.mtx.Lock()
 	defer a.mtx.Unlock()
@@ -462,7 +464,9 @@ func (a *c17SsApp) InfoSync(abci.RequestInfo) (*abci.ResponseInfo, error) {
 	}
 	return &abci.ResponseInfo{}, nil
 }
-func (a *c17SsApp) QuerySync(abci.RequestQuery) (*abci.ResponseQuery, error) { return &abci.ResponseQuery{}, nil }
+func (a *c17SsApp) QuerySync(abci.RequestQuery) (*abci.ResponseQuery, error) {
+	return &abci.ResponseQuery{}, nil
+}
 
 type c17SsProvider struct{}
 
